@@ -226,8 +226,15 @@ func (c *FileCache[MetadataT]) Cache(key CacheKey, data io.Reader, expires time.
 	}
 
 	c.mu.Lock()
+	previous, overwritten := c.entriesMetadata[key]
 	c.entriesMetadata[key] = meta
 	c.mu.Unlock()
+
+	if overwritten {
+		// The previous version of this key is gone: it must no longer be counted
+		decrementCacheEntries()
+		decrementCacheSize(&c.byteSize, previous.Size)
+	}
 
 	incrementCacheEntries()
 	addCacheSize(&c.byteSize, fileSize)
